@@ -29,6 +29,8 @@ pub struct OracleState {
     pub pending_restart: Vec<Option<usize>>, // per slot: listener whose service must be re-created
     pub svc_seen: Vec<usize>,                // per slot: number of svc_log entries already judged
     pub pause_seen: bool,
+    /// the most recent pause()/resume() command issued through the handle (true = pause)
+    pub last_pause_cmd: Option<bool>,
     pub backoff_seen: bool,
     /// C04: (dispatch-log length, finished count) at quiescent states in which every worker of the
     /// full rotation had spare capacity
@@ -57,6 +59,7 @@ impl OracleState {
             pending_restart: Vec::new(),
             svc_seen: Vec::new(),
             pause_seen: false,
+            last_pause_cmd: None,
             backoff_seen: false,
             q_marks: Vec::new(),
             forced_seen_at: None,
@@ -115,6 +118,9 @@ pub fn gen_config(prop: &str, tier: Tier, rng: &mut Rng) -> Config {
         system_exit: false,
         script_errors: true,
         burst: 0,
+        busy_after_call: false,
+        factory_fails_on_restart: false,
+        freeze: false,
     };
     let lst = |rng: &mut Rng, uds_w: u64| -> Vec<Lst> {
         let n = if rng.chance(1, 3) { 2 } else { 1 };
@@ -205,9 +211,15 @@ pub fn gen_config(prop: &str, tier: Tier, rng: &mut Rng) -> Config {
             c.scripts = true;
             c.factory_polls = rng.range(0, 2) as u32;
             c.race_q = 0;
+            c.busy_after_call = rng.chance(1, 4);
         }
         "C08" => {
             c.kills = true;
+            // a worker also dies when a failed service cannot be re-created (two-step fault)
+            if rng.chance(1, 5) {
+                c.scripts = true;
+                c.factory_fails_on_restart = true;
+            }
             // a replacement may arrive while the accept loop is paused
             c.pause = rng.chance(1, 4);
             c.race_q = *rng.pick(&[0, 0, 1, 2]);
@@ -664,6 +676,25 @@ pub fn at_quiescence(sim: &mut Sim) {
         }
         sh.ctx(|ctx| ctx.bump("probe.commands_acknowledged"));
     }
+    if prop == "C05" && !sim.o.stop_issued && sim.server.is_some() && sh.accept_alive.get() {
+        // commands are handled in order, and at quiescence the accept loop has processed every
+        // wake-up: it is paused exactly if the last command was pause()
+        if let Some(want) = sim.o.last_pause_cmd {
+            let is = sh.accept.borrow().as_ref().map_or(want, |a| a.paused());
+            if is != want {
+                sh.violate(Violation::new(
+                    if want { "pause-not-effective" } else { "resume-not-effective" },
+                    format!(
+                        "the last command acknowledged was {}() but at quiescence the accept loop is {}",
+                        if want { "pause" } else { "resume" },
+                        if is { "paused" } else { "accepting" }
+                    ),
+                ));
+                return;
+            }
+            sh.ctx(|ctx| ctx.bump("probe.pause_state_judged"));
+        }
+    }
     if sim.server.is_none() && sim.o.t_server_done.is_some() && !sh.stop_done.get() {
         check_graceful_not_early(sim, "the Server future");
         sh.stop_done.set(true);
@@ -743,7 +774,7 @@ pub fn at_quiescence(sim: &mut Sim) {
             }
         }
     }
-    if prop == "C03" {
+    if prop == "C03" || prop == "C08" {
         for l in 0..sh.cfg.listeners.len() {
             let waiting = waiting_on(&sh, l);
             if waiting == 0 {
@@ -799,6 +830,7 @@ pub async fn drain_and_final(sim: &mut Sim) {
     let sh = sim.sh.clone();
     let prop = sh.prop.clone();
     sh.ctx(|ctx| ev!(ctx, "-- drain --"));
+    sh.draining.set(true);
     sh.armed_fault.set(None);
     sh.panic_next_call.set(None);
     sim.settle();
@@ -830,6 +862,7 @@ pub async fn drain_and_final(sim: &mut Sim) {
     let running = sim.server.is_some() && sh.accept_alive.get() && !sim.o.stop_issued;
     if running && sh.accept.borrow().as_ref().map_or(false, |a| a.paused()) {
         drop(sim.handle.resume());
+        sim.o.last_pause_cmd = Some(false);
         sh.ctx(|ctx| ev!(ctx, "drain: resume"));
     }
     sim.settle();
